@@ -34,7 +34,16 @@ RULE = (
     'not windowed); getTimes(window) == getTimes(source)[selection]; '
     '(SDATE\', STIME\') == the source TFLAG row of the first retained step '
     '(== integer-arithmetic instant of the model); TSTEP\' == TSTEP when >= 2 '
-    'steps are retained; sliceDimensions must return.  Non-trivial: >= 2 '
+    'steps are retained; when the window has a TFLAG variable every column '
+    'of it equals the retained source rows and SDATE\', STIME\' == '
+    'TFLAG\'[0,0]; sliceDimensions must return.  Each source is put into '
+    'one of three states before the window is taken (ioapispec.preps): '
+    'synced (as constructed, 1/3), var-added (one more standard-dimension '
+    'variable added by createVariable or copyVariable without a following '
+    'updatemeta, so TFLAG/VAR lag behind NVARS, 1/3), no-tflag (TFLAG '
+    'deleted, file timed by SDATE/STIME/TSTEP or the CF time variable, 1/3; '
+    'for the disk route the state is applied before saving); the reference '
+    'is always the source\'s own getTimes().  Non-trivial: >= 2 '
     'dimensions windowed, or a negative int, or a window touching either '
     'edge of its dimension without covering it, or a retained time range '
     'lying on more than one date.  Distinct by sha1 of the case spec.  In '
@@ -111,7 +120,7 @@ def cases(draw, tier='quick'):
             b < nt and form == 1) else b)
         win = [w if w[0] != 'TSTEP' else ['TSTEP', 'slice', [lo, hi, None]]
                for w in win]
-    return dict(file=fs, win=win)
+    return dict(file=fs, win=win, prep=draw(I.preps(fs)))
 
 
 def strategy(tier):
@@ -127,7 +136,11 @@ EXHAUSTIVE_NOTE = (
     'layers, 3 rows, 4 columns): every window of one dimension and every '
     'pair of windows of two dimensions (quick), every combination over all '
     'four dimensions including "untouched" (thorough); a window is every int '
-    'in [-n, n-1] and every slice(a, b) with 0 <= a < b <= n')
+    'in [-n, n-1] and every slice(a, b) with 0 <= a < b <= n.  Source '
+    'states: synced for all of the above; in addition every single window '
+    'in the states var-added(create), var-added(copy), no-tflag, every pair '
+    'containing TSTEP in state no-tflag (quick), every pair in all three '
+    'states (thorough)')
 
 
 def _all_windows(n):
@@ -143,20 +156,30 @@ def enumerate_cases(tier):
     fs = ENUM_FILE
     dl = [('TSTEP', fs['nt']), ('LAY', fs['nz']), ('ROW', fs['ny']),
           ('COL', fs['nx'])]
+    states = [['var-added', 'create', I.ADDED_NAME],
+              ['var-added', 'copy', I.ADDED_NAME], 'no-tflag']
     if tier == 'thorough':
         opts = [[None] + _all_windows(n) for d, n in dl]
         for combo in itertools.product(*opts):
             win = [[d] + w for (d, n), w in zip(dl, combo) if w is not None]
             if win:
-                yield dict(file=fs, win=win)
-        return
+                yield dict(file=fs, win=win, prep='synced')
     for d, n in dl:
         for w in _all_windows(n):
-            yield dict(file=fs, win=[[d] + w])
+            if tier != 'thorough':
+                yield dict(file=fs, win=[[d] + w], prep='synced')
+            for p in states:
+                yield dict(file=fs, win=[[d] + w], prep=p)
     for (d1, n1), (d2, n2) in itertools.combinations(dl, 2):
         for w1 in _all_windows(n1):
             for w2 in _all_windows(n2):
-                yield dict(file=fs, win=[[d2] + w2, [d1] + w1])
+                win = [[d2] + w2, [d1] + w1]
+                if tier != 'thorough':
+                    yield dict(file=fs, win=win, prep='synced')
+                for p in states:
+                    if tier == 'thorough' or (d1 == 'TSTEP' and
+                                              p == 'no-tflag'):
+                        yield dict(file=fs, win=win, prep=p)
 
 
 def finish(stats):
@@ -180,7 +203,7 @@ def check_case(case):
     r = Result()
     fs = case['file']
     m = I.model(fs)
-    f = I.build(fs)
+    f = I.build(fs, case.get('prep'))
     try:
         return _check(case, fs, m, f, r)
     finally:
@@ -192,6 +215,8 @@ def check_case(case):
 def _check(case, fs, m, f, r):
     win = I_OD(case['win'])
     r.label('route:' + fs['route'], 'ftype:%d' % fs['ftype'])
+    prep = I.prep_kind(case.get('prep'))
+    r.label('prep:' + prep)
     dlen = dict((d, m.dims[d]) for d in win)
     rng = dict((d, bounds(dlen[d], *win[d])) for d in win)
     # ---- labels / non-triviality
@@ -230,18 +255,32 @@ def _check(case, fs, m, f, r):
         r.label('steps-kept:%s' % ('1' if cnt == 1 else '2+'))
     if fs['tstep'] >= 240000:
         r.label('tstep>=24h')
+    if prep != 'synced':
+        # the result's TFLAG cannot be the sliced source TFLAG: it has to be
+        # rebuilt for the window
+        r.label('tflag-rebuilt')
+        if 'TSTEP' in win and rng['TSTEP'][0] > 0:
+            r.label('tflag-rebuilt+time-window-not-at-step0')
+            if fs['route'] != 'griddesc_cf':
+                r.label('tflag-rebuilt-from-start-attrs+offset')
     r.nontrivial = nt
     # ---- source values, read before the call
     src = {}
     for k in ('XORIG', 'YORIG', 'XCELL', 'YCELL', 'SDATE', 'STIME', 'TSTEP'):
         src[k] = getattr(f, k)
     src_vg = np.array(f.VGLVLS, dtype='f4', copy=True)
-    src_tflag = np.array(f.variables['TFLAG'][:, 0, :], dtype='i8')
     ok, src_times = guard(r, 'source-gettimes-raises', f.getTimes)
     if not ok:
         return r
     src_times = np.array(src_times).copy()
-    if not (src_tflag == m.tflag).all():
+    if 'TFLAG' in f.variables:
+        src_tflag = np.array(f.variables['TFLAG'][:, 0, :], dtype='i8')
+    else:
+        # source timed by SDATE/STIME/TSTEP (or CF time) only: its own
+        # decoded times are the reference
+        src_tflag = np.array([[I.yyyyjjj(t), I.hhmmss(t)]
+                              for t in src_times], dtype='i8')
+    if src_tflag.shape != m.tflag.shape or not (src_tflag == m.tflag).all():
         # construction problem, not a windowing problem: C12's business
         r.label('source-tflag-differs-from-model')
     kw = I_OD((d, to_sel(*win[d])) for d in win)
@@ -294,6 +333,25 @@ def _check(case, fs, m, f, r):
         r.fail('start', 'SDATE, STIME = %r, %r but the first retained step '
                '(index %d) is %d, %06d' % (sd, stt, i0, wsd, wst),
                klass=('windowed' if 'TSTEP' in win else 'untouched'))
+    # the result's own time flags: every column carries the retained
+    # instants, and the start attributes agree with the first row
+    if 'TFLAG' in out.variables:
+        otf = np.array(out.variables['TFLAG'][:], dtype='i8')
+        want_rows = src_tflag[i0:i1 + 1]
+        if otf.ndim != 3 or otf.shape[0] != want_rows.shape[0] or \
+                otf.shape[1] < 1 or \
+                not (otf == want_rows[:, None, :]).all():
+            r.fail('tflag', 'TFLAG of the window (shape %r) = %s, the '
+                   'retained source steps are %s' % (
+                       tuple(otf.shape), otf[:, :1, :].tolist()[:8]
+                       if otf.ndim == 3 else otf.tolist()[:8],
+                       want_rows.tolist()[:8]),
+                   klass=('windowed' if 'TSTEP' in win else 'untouched'))
+        elif sd is not None and stt is not None and (
+                int(sd) != int(otf[0, 0, 0]) or int(stt) != int(otf[0, 0, 1])):
+            r.fail('start-vs-tflag', 'SDATE, STIME = %r, %r but TFLAG[0,0] of'
+                   ' the window = %r' % (sd, stt, otf[0, 0].tolist()),
+                   klass=('windowed' if 'TSTEP' in win else 'untouched'))
     if cnt >= 2 or 'TSTEP' not in win:
         ts = getattr(out, 'TSTEP', None)
         if ts is None or int(ts) != int(src['TSTEP']):
